@@ -219,6 +219,7 @@ type comboDef struct {
 	level       string
 	sched       func(q bool) *SchedPlan
 	seq         func(q bool) *SeqPlan
+	enum        func(q bool) []*EnumPlan // optional
 	rule        string
 	note        string
 	assumptions []string
@@ -227,9 +228,18 @@ type comboDef struct {
 func comboCheck(d comboDef) {
 	Registry[d.id] = func(c *Ctx) int {
 		sp, qp := d.sched(c.Quick()), d.seq(c.Quick())
+		var eps []*EnumPlan
+		if d.enum != nil {
+			eps = d.enum(c.Quick())
+		}
 		if c.Worker >= 0 {
 			if sp.find(c.Scen) != nil {
 				return sp.Worker(c)
+			}
+			for _, ep := range eps {
+				if ep.Name == c.Scen {
+					return ep.Worker(c)
+				}
 			}
 			return qp.Worker(c)
 		}
@@ -258,6 +268,19 @@ func comboCheck(d comboDef) {
 		}
 		cov["evaluations"] = sr.Total.Executions + int64(qs.Trans)
 		viol := sr.Violations + qs.Violations
+		if len(eps) > 0 {
+			sum := &EnumSummary{}
+			for _, ep := range eps {
+				ep.Master(c, sum)
+				if sum.EngineErr != "" {
+					return EngineError("%s", sum.EngineErr)
+				}
+			}
+			cov["enumerations"] = sum.Coverage("")
+			cov["evaluations"] = sr.Total.Executions + int64(qs.Trans) + int64(sum.Evaluations)
+			viol += sum.Violations
+			c.ReportKnown(sum.KnownHits)
+		}
 		c.WriteEvidence(d.level, cov, d.assumptions, viol)
 		fmt.Printf("%s %s: schedules: %d executions / %d distinct traces; histories: %d states / %d transitions; %d violations\n", d.id, c.Tier, sr.Total.Executions, len(sr.Total.Traces), qs.States, qs.Trans, viol)
 		if viol > 0 {
@@ -321,8 +344,11 @@ func init() {
 					tick(200 * ms), tick(1 * sec), tick(3 * sec)}},
 			}, Oracles: []SeqOracle{SeqOracleC03}}
 		},
+		enum: func(q bool) []*EnumPlan {
+			return []*EnumPlan{{Name: "text-connection-replies", Cases: c03TextCases, Eval: evalC03Text}}
+		},
 		rule:        "schedule DFS (<=2/3 deviations) of 2-3 client threads racing the timeout/expiry sweepers, plus BFS over operation histories each extended by a drain; per connection the multiset of (RequestId, result) is checked: exactly one terminal reply per request, at most one EXPRIED per grant and only for requests that set the hold's terms, no foreign RequestId; non-trivial = at least two client threads answered",
-		note:        "histories: every state is extended by unlock-all + 40 virtual seconds, then the reply multiset of the whole history is judged",
+		note:        "histories: every state is extended by unlock-all + 40 virtual seconds, then the reply multiset of the whole history is judged; text connections: every sequence of text requests (short expiries, pauses, fire-and-forget PUSH) on one connection of a full node: one reply per request, in order, carrying the request's own LOCK_ID, never an expiry notice in place of an answer",
 		assumptions: commonAssumptions})
 
 	comboCheck(comboDef{id: "C04", level: "exploration",
